@@ -25,6 +25,7 @@ them to the fitted scores, (i)/(ii) are read off the labels of the caller's own 
 from __future__ import annotations
 
 import contextlib
+import functools
 import io
 import itertools
 import os
@@ -113,13 +114,17 @@ MODELS = {
     "CPCCA_a05_a1_pca32": ("cross", "CPCCA", None, dict(n_modes=2, alpha=[0.5, 1.0], use_pca=True, n_pca_modes=[3, 2], random_state=3), None, False),
     "MCA_pca32": ("cross", "MCA", None, dict(n_modes=2, use_pca=True, n_pca_modes=[3, 2], random_state=3), None, False),
     "CPCCARotator_a05_a1_pca32": ("cross", "CPCCARotator", "CPCCA", dict(n_modes=2, power=1), dict(n_modes=2, alpha=[0.5, 1.0], use_pca=True, n_pca_modes=[3, 2], random_state=3), False),
+    # ---- rotators whose variance ranking is a permutation that is NOT its own inverse (a cycle of length >= 3): the only
+    #      rankings on which applying the inverse re-ordering differs from applying the re-ordering. Training data: see cyc_salt
+    "EOFRotator_cyc": ("single", "EOFRotator", "EOF", dict(n_modes=5, power=1), dict(n_modes=5, random_state=3), False),
+    "EOFRotator_cyc_p2": ("single", "EOFRotator", "EOF", dict(n_modes=5, power=2), dict(n_modes=5, random_state=3), False),
     "multi.CCA": ("multi", "CCA", None, dict(n_modes=2, pca=False), None, False),
     "multi.CCA_pca": ("multi", "CCA", None, dict(n_modes=2, pca=True, variance_fraction=0.9, init_pca_modes=3), None, False),
 }
 # option variants run on the base layouts only: one_dim (+ two_dims thorough), the coordinate classes below, not Y-only
 VARIANT_MODELS = (
     "EOFRotator_p2", "ComplexEOFRotator_p2", "EOFRotator_p3", "CPCCARotator_a05_p2", "MCARotator_p2", "MCARotator_p3", "ComplexCPCCARotator_a05_p2",
-    "ComplexMCARotator_p2", "CPCCA_a05_a1_pca32", "MCA_pca32", "CPCCARotator_a05_a1_pca32",
+    "ComplexMCARotator_p2", "CPCCA_a05_a1_pca32", "MCA_pca32", "CPCCARotator_a05_a1_pca32", "EOFRotator_cyc", "EOFRotator_cyc_p2",
 )
 VARIANT_COORDS = {"quick": ("disjoint", "train_subset"), "thorough": ("disjoint", "repeats", "train_subset", "train_moved", "nan_sample")}
 THOROUGH_ONLY_MODELS = ("EOFRotator_p3", "MCARotator_p3", "ComplexMCARotator_p2", "CPCCA_a1", "RDA", "ComplexCPCCA_a05", "ComplexCCA", "ComplexRDA", "CPCCARotator_a1", "ComplexMCARotator", "multi.CCA_pca")
@@ -279,9 +284,51 @@ def _field(M, which, structure_is_mi, sample_labels, shape2=None, runs=None):
     return xr.DataArray(M.reshape((n,) + fshape), dims=("time",) + fdims, coords=dict(time=list(sample_labels), **fcoords), name=name)
 
 
-def training(structure, cplx, seed):
-    Mx = D.make_matrix(N_TRAIN, 6, "geometric", 1.0, cplx, seed, salt=501)
-    My = D.make_matrix(N_TRAIN, 4, "geometric", 1.0, cplx, seed, salt=502) * 2.0 + 1.0
+def _is_involution(p):
+    p = [int(i) for i in p]
+    return all(p[p[i]] == i for i in range(len(p)))
+
+
+CYC_SALTS = range(600, 660)
+
+
+@functools.lru_cache(maxsize=None)
+def cyc_salt(model, seed):
+    """Training data for the `_cyc` rotators: the first catalogue matrix (near-equal variances, salts 600..659 in order) on
+    which the rotator's variance ranking contains a cycle of length >= 3. The ranking is read from the rotator's own
+    bookkeeping (white-box, used ONLY to choose the input - the oracle never looks at it). None if there is none (vacuous)."""
+    import xeofs as xe
+
+    fam, cls, basecls, kw, basekw, cplx = MODELS[model]
+    pkg = {"single": xe.single, "cross": xe.cross}[fam]
+    t = list(range(N_TRAIN))
+    for salt in CYC_SALTS:
+        Mx = D.make_matrix(N_TRAIN, 6, "near_equal_var", 1.0, cplx, seed, salt=salt)
+        My = D.make_matrix(N_TRAIN, 4 if fam == "single" else 5, "near_equal_var", 1.0, cplx, seed, salt=salt + 100) * 2.0 + 1.0
+        try:
+            b = getattr(pkg, basecls)(**basekw)
+            b.fit(_field(Mx, "X", False, t), "time") if fam == "single" else b.fit(_field(Mx, "X", False, t), _field(My, "Y", False, t), "time")
+            r = getattr(pkg, cls)(**kw)
+            r.fit(b)
+            perm = np.asarray(r.data["idx_modes_sorted"].values)
+        except Exception:
+            continue
+        if not _is_involution(perm):
+            return salt
+    return None
+
+
+def training(structure, cplx, seed, model=None):
+    if model is not None and model.endswith(("_cyc", "_cyc_p2")):
+        salt = cyc_salt(model, seed)
+        if salt is None:
+            raise RuntimeError("harness: no catalogue matrix gives %s a cyclic variance ranking (run_case reports this as vacuous)" % model)
+        fam = MODELS[model][0]
+        Mx = D.make_matrix(N_TRAIN, 6, "near_equal_var", 1.0, cplx, seed, salt=salt)
+        My = D.make_matrix(N_TRAIN, 4 if fam == "single" else 5, "near_equal_var", 1.0, cplx, seed, salt=salt + 100) * 2.0 + 1.0
+    else:
+        Mx = D.make_matrix(N_TRAIN, 6, "geometric", 1.0, cplx, seed, salt=501)
+        My = D.make_matrix(N_TRAIN, 4, "geometric", 1.0, cplx, seed, salt=502) * 2.0 + 1.0
     if structure == "two_dims":
         t = list(range(5))
         X = _field(Mx, "X", False, t, (5, 2), TRAIN_RUNS)
@@ -449,7 +496,7 @@ def build_model(case, seed):
     import xeofs as xe
 
     fam, cls, basecls, kw, basekw, cplx = MODELS[case["model"]]
-    X, Y, Mx, My, tlabels, sdims = training(case["structure"], cplx, seed)
+    X, Y, Mx, My, tlabels, sdims = training(case["structure"], cplx, seed, case["model"])
     extra = {}
     if case["prep"] == "std_coslat":  # the second field (stations) has no latitude
         extra = dict(standardize=True, use_coslat=[True, False] if fam == "cross" else True)
@@ -605,6 +652,8 @@ def run_case(case, seed):
             seen.add(key)
             V.append(viol(check, mname, msg, **f))
 
+    if case["model"].endswith(("_cyc", "_cyc_p2")) and cyc_salt(case["model"], seed) is None:
+        return dict(violations=[], outcome="vacuous:no_cyclic_ranking:" + case["model"], nontrivial=False)
     tot = Counter()
     anchor_check = "train_subset_scores" if coords in ("train_subset", "train_moved") else "per_sample_value"
     sink = io.StringIO()
@@ -813,6 +862,9 @@ def finalize(cases, results, tier, seed):
 
 
 def vacuity(outcomes, results, tier):
+    for o in outcomes:
+        if o.startswith("vacuous:"):
+            return "%s: no catalogue matrix (salts %d..%d) gives that rotator a variance ranking with a cycle of length >= 3" % (o, CYC_SALTS[0], CYC_SALTS[-1])
     anchors = Counter()
     multi = 0
     edges = 0
